@@ -172,6 +172,36 @@ def run_abf(exe, case, scratch, timeout=30.0):
     return out, stats
 
 
+def run_death(exe, case, scratch, timeout=20.0):
+    """Shared ABF, all walkers in lockstep; in the exchange round of step case["T"] walker case["victim"] dies at its
+    (case["die_after"]+1)-th replica call (vsim "repdie").  Returns {w: (STEP lines, dump)} of the survivors after that step
+    and the dumps of all walkers before it."""
+    n = case["n"]
+    dirs = []
+    for i in range(n):
+        d = os.path.join(scratch, "x%d" % i)
+        shutil.rmtree(d, ignore_errors=True)
+        os.makedirs(d)
+        dirs.append(d)
+    with W.Team(exe, n, dirs, timeout_ms=case.get("timeout_ms", 400)) as T:
+        for r in T.all_do(lambda i: abf_setup(case), timeout):
+            if not any(x.startswith("CONFIG err=ok") for x in r):
+                raise W.WalkerTimeout("configuration failed: %s" % r)
+        for t in range(case["T"]):
+            T.all_do(lambda i: step_lines(case, [case["steps"][t][i][0]], [case["steps"][t][i][1]]), timeout)
+        before = [parse_shared(r) for r in T.all_do(["dumpshared a"], timeout)]
+        T.walkers[case["victim"]].do(["repdie %d" % case["die_after"]], timeout)
+        t = case["T"]
+        toks = [T.walkers[i].send(step_lines(case, [case["steps"][t][i][0]], [case["steps"][t][i][1]])) for i in range(n)]
+        after = {}
+        for i in range(n):
+            if i == case["victim"]:
+                continue
+            r = T.walkers[i].collect(toks[i], timeout)
+            after[i] = ([x for x in r if x.startswith("STEP")], parse_shared(r))
+    return before, after
+
+
 # ------------------------------------------------------------------------------------------
 # file-based multiple-walker metadynamics
 # ------------------------------------------------------------------------------------------
